@@ -66,13 +66,14 @@ class Built:
   """Result of one build: the Gfa (or None), the exception (or None), the
   stage at which it was raised, and for `inc` the version after every
   add_line."""
-  __slots__ = ("g", "err", "stage", "versions")
+  __slots__ = ("g", "err", "stage", "versions", "refused")
 
   def __init__(self):
     self.g = None
     self.err = None
     self.stage = None
     self.versions = None
+    self.refused = None
 
   @property
   def outcome(self):
@@ -121,12 +122,13 @@ def build(entry, lines, version=None, vlevel=1, dialect="standard",
         b.stage = "Gfa()"
         b.g = gfapy.Gfa(**kw)
         b.versions = []
+        b.refused = []
         for i, l in enumerate(lines):
           b.stage = "add_line#{}".format(i)
           try:
             b.g.add_line(l)
           except gfapy.Error:
-            pass
+            b.refused.append(i)
           b.versions.append(b.g.version)
       elif entry == "inc":
         b.stage = "Gfa()"
